@@ -101,7 +101,13 @@ def c17_config(prefix="C17/"):
     c.ob_prefix = prefix
     c.summaries["pynetdicom.utils:set_uid"] = uid_summary
     c.summaries["pynetdicom.utils:set_ae"] = uid_summary
-    c.summaries[f"{DM}:DIMSEMessage._set_command_group_length"] = lambda I, a, k: None
+
+    def group_length(I, a, k):
+        # by contract (GroupLengthTask): sets (0000,0000) from the elements present NOW
+        cs = a[0].fields.get("command_set") if isinstance(a[0], Obj) else None
+        I.ghost["group_length_calls"] = I.ghost.get("group_length_calls", []) + [list(cs.elems) if isinstance(cs, DatasetV) else None]
+        return None
+    c.summaries[f"{DM}:DIMSEMessage._set_command_group_length"] = group_length
     c.ext_models["pydicom.dataset.Dataset"] = lambda I, a, k: DatasetV([])
     c.ext_models["pydicom.uid.UID"] = lambda I, a, k: a[0]
 
@@ -207,6 +213,10 @@ class RoundTripTask(Task):
             return
         cs = msg.fields["command_set"]
         elems = dict(cs.elems)
+        glc = I.ghost.get("group_length_calls", [])
+        I.ob(f"{P}/the-group-length-is-computed-once-over-the-finished-command-set",
+             len(glc) == 1 and glc[0] is not None and sorted(k for k, _ in glc[0]) == sorted(elems) and all(dict(glc[0])[k] is elems[k] for k in elems),
+             detail=f"{len(glc)} calls; at the call: {sorted(k for k, _ in glc[0]) if glc and glc[0] else None}; sent: {sorted(elems)}")
         I.ob(f"{P}/command-field-is-the-PS3.7-value", elems.get("CommandField") == COMMAND_FIELD[self.msg_name], detail=repr(elems.get("CommandField")))
         if ds_kw:
             # the receiver takes the data-set bytes that follow the command set only if this element announces them
@@ -290,11 +300,70 @@ def _same_ds(I, a, b):
     return a is b
 
 
+class GroupLengthTask(Task):
+    """DIMSEMessage._set_command_group_length on its real body: afterwards (0000,0000) Command Group Length holds the length of
+    the command set encoded WITHOUT that element, in Implicit VR Little Endian (PS3.7 6.3.1), and no other element was touched.
+    The encoder is used by its contract (dsutils.encode: bytes of some length for the elements it is shown)."""
+    name = "DIMSEMessage._set_command_group_length"
+    FN = f"{DM}:DIMSEMessage._set_command_group_length"
+    functions = [FN]
+    shard = False
+
+    def config(self, repo):
+        c = Config()
+        c.ob_prefix = "C17/"
+
+        def enc(I, a, k):
+            g = I.ghost
+            ds = a[0]
+            names = ["ds", "is_implicit_vr", "is_little_endian", "deflated"]
+            ar = dict(zip(names, a))
+            ar.update(k)
+            g["encode_calls"] = g.get("encode_calls", []) + [(ds, list(ds.elems) if isinstance(ds, DatasetV) else None, ar.get("is_implicit_vr"),
+                                                                ar.get("is_little_endian"), ar.get("deflated", False))]
+            b = I.fresh("bytes", "encoded_command_set")
+            g["encoded"] = b
+            return b
+        c.summaries["pynetdicom.dsutils:encode"] = enc
+        return c
+
+    def body(self, I):
+        P = f"C17/{self.FN}"
+        g = I.ghost
+        old = I.input("int", "old_group_length")
+        others = [("CommandField", I.input("int", "CommandField")), ("MessageID", I.input("int", "MessageID")),
+                  ("CommandDataSetType", I.input("int", "CommandDataSetType"))]
+        pos = I.choose(3, "position of the group length element")
+        elems = list(others)
+        elems.insert({0: 0, 1: 1, 2: 3}[pos], ("CommandGroupLength", old))
+        cs = DatasetV(elems)
+        msg = Obj(I.repo.cls(f"{DM}:DIMSEMessage"))
+        msg.fields["command_set"] = cs
+        kind, val = I.run_function(I.repo.func(self.FN), [msg])
+        I.ob(f"{P}/no-exception", kind == "return", detail=f"{kind}:{val!r}")
+        if kind != "return":
+            return
+        calls = g.get("encode_calls", [])
+        I.ob(f"{P}/the-command-set-is-encoded-once-as-implicit-VR-little-endian-not-deflated",
+             len(calls) == 1 and calls[0][0] is cs and calls[0][2] is True and calls[0][3] is True and calls[0][4] is False, detail=repr(calls))
+        if len(calls) != 1:
+            return
+        seen = calls[0][1]
+        I.ob(f"{P}/the-length-is-taken-over-every-other-element-and-not-over-the-group-length-element-itself",
+             seen is not None and sorted(k for k, _ in seen) == sorted(k for k, _ in others) and all(dict(seen)[k] is v for k, v in others), detail=repr(seen))
+        now = dict(msg.fields["command_set"].elems) if isinstance(msg.fields.get("command_set"), DatasetV) else {}
+        gl = now.get("CommandGroupLength")
+        I.ob(f"{P}/the-group-length-element-holds-the-length-of-that-encoding",
+             isinstance(gl, SV) and gl.k == "int" and z3.Length(g["encoded"].e) == gl.e, detail=repr(gl))
+        I.ob(f"{P}/no-other-element-is-changed", sorted(now) == sorted(["CommandGroupLength"] + [k for k, _ in others]) and all(now[k] is v for k, v in others),
+             detail=repr(now))
+
+
 def tasks(tier):
     from contracts.dimse_frag import SendMsgTask
     # which message class a primitive is converted with (request or response of ITS type) is decided in
     # DIMSEServiceProvider.send_msg, the one caller of primitive_to_message on the sending side
-    return [TablesTask()] + [RoundTripTask(n) for n in sorted(COMMAND_FIELD)] + [SendMsgTask("C17/")]
+    return [TablesTask()] + [RoundTripTask(n) for n in sorted(COMMAND_FIELD)] + [SendMsgTask("C17/"), GroupLengthTask()]
 
 
 bounded_results = [{"what": "replay/C17.py (thorough tier, native): real primitive -> primitive_to_message -> encode_msg (pydicom) -> decode_msg -> "
